@@ -113,6 +113,50 @@ class Norm:
         return (tag.upper(),)
 
 
+def _counter_holes(t):
+    """[(skeleton, leaf)] - the normal form with one integer-constant / counter leaf replaced by a hole, for every such leaf."""
+    out = []
+
+    def rec(x, path):
+        if isinstance(x, tuple) and x:
+            if (x[0] == "C" and len(x) == 2 and isinstance(x[1], int) and not isinstance(x[1], bool)) or x[0] == "CTR":
+                out.append((path, x))
+                return
+            for i, y in enumerate(x):
+                rec(y, path + (i,))
+    rec(t, ())
+
+    def put(x, path):
+        if not path:
+            return ("HOLE",)
+        return tuple(put(y, path[1:]) if i == path[0] else y for i, y in enumerate(x))
+    return [(put(t, p), leaf) for p, leaf in out]
+
+
+def counter_cover(reader_labels, writer_labels):
+    """Reader labels that are justified because, together, they walk the writer's counter from its first value on:
+    writer CTR(s, st) is covered by reader constants s, s+st, .. followed by a reader CTR(s', st) (a rotated loop looks the
+    first entry up before the loop and the others inside it)."""
+    ok = set()
+    for w in writer_labels:
+        for wsk, wleaf in _counter_holes(w):
+            if wleaf[0] != "CTR":
+                continue
+            _t, s, st = wleaf
+            if not isinstance(s, int) or not isinstance(st, int) or st == 0:
+                continue
+            group = [(r, leaf) for r in reader_labels for rsk, leaf in _counter_holes(r) if rsk == wsk]
+            consts = {leaf[1] for _r, leaf in group if leaf[0] == "C"}
+            for _r, leaf in group:
+                if leaf[0] == "CTR" and leaf[2] == st and isinstance(leaf[1], int) and (leaf[1] - s) % st == 0 and leaf[1] >= s:
+                    need = set(range(s, leaf[1], st))
+                    if need <= consts:
+                        for r2, l2 in group:
+                            if (l2[0] == "C" and l2[1] in need) or l2 == leaf:
+                                ok.add(r2)
+    return ok
+
+
 def make_kw_test(db_param=None, kw_param=None):
     def is_db(x, depth=0):
         if depth > 6 or not isinstance(x, tuple):
@@ -221,6 +265,15 @@ def check(repo):
         shapes = c02.edb_shapes(repo, s)
         ft2, accs = c02.collect_accesses(repo, s, search, shapes)
         read_attrs = set()
+        all_reader = {}
+        for a in accs:
+            if a.kind == "dict" and a.form != "member":
+                for alt in alternatives(a.key_term):
+                    try:
+                        all_reader.setdefault(a.path[0], set()).add(nr.n(alt))
+                    except Exception:
+                        pass
+        covered = {attr: counter_cover(rs, wkeys.get(attr, set())) for attr, rs in all_reader.items()}
         for a in accs:
             read_attrs.add(a.path[0])
             if a.path[1] != (1 if shapes.get(a.path[0], (None,))[0] == "list" and shapes[a.path[0]][1][0] == "dict" else 0) and a.kind != "dict":
@@ -240,7 +293,7 @@ def check(repo):
                     cands = set(rk[1][1])
                 desc = {"scheme": s.name, "container": a.path[0], "reader_label": _fmt(rk), "line": a.node.line}
                 w = wkeys.get(a.path[0], set())
-                if cands & w:
+                if cands & w or (cands & covered.get(a.path[0], set())):
                     n_agree += 1
                     r1.ok(desc)
                 else:
@@ -316,6 +369,12 @@ def check(repo):
         if s.name == "ANSS16.Scheme3":
             _check_anss16_size_guard(repo, r5, s, search)
 
+    # the derivations agree only if the keyed primitives are functions of (key, input): a PRP object that remembers the first key it saw
+    # gives set-up and token generation different permutations as soon as two keys (or two objects) are involved
+    r6 = Rule("R1.6", "the keyed primitives behind labels and addresses are stateless functions of (key, input)")
+    rules.append(r6)
+    from .c15 import check_prp_stateless
+    check_prp_stateless(repo, r6)
     r1.require(n_agree >= 20, schemes[0].method("_Enc"), "agreements floor", "only %d label/key/mask agreements established (expected >= 20)" % n_agree)
     _check_pi2lev_split(repo, r3, [s for s in schemes if s.name == "CJJ14.Pi2Lev"][0])
     _check_capacity(repo, r4, schemes)
@@ -405,6 +464,25 @@ def _check_ct14_levels(repo, r1, s, enc, search, fte, fts):
             if not la:
                 continue
             found += 1
+            # the per-keyword level loop reaches the top level: a list of 2^t postings (a one-keyword database, N = 1) lives at level t
+            if idx[0] == "rangevar":
+                a_ = idx[1]
+                top = None
+                if len(a_) == 1:
+                    top = ("binop", "Sub", a_[0], ("const", 1))
+                    if a_[0][0] == "binop" and a_[0][1] == "Add" and a_[0][3] == ("const", 1):
+                        top = a_[0][2]
+                elif len(a_) == 2 and a_[0] == ("const", 0):
+                    top = a_[1][2] if a_[1][0] == "binop" and a_[1][1] == "Add" and a_[1][3] == ("const", 1) else ("binop", "Sub", a_[1], ("const", 1))
+                elif len(a_) == 3 and a_[1] == ("const", -1) and a_[2] == ("const", -1):
+                    top = a_[0]
+                tds = _level_count_defs(fte)
+                t_term = fte.def_term(tds[0]) if tds else None
+                data_top = top is not None and top[0] == "call" and top[1] == "int" and top[2] and top[2][0][0] == "call" and top[2][0][1] in ("math.log2", "log2")
+                bitlen_top = top is not None and top[0] == "binop" and top[1] == "Sub" and top[3] == ("const", 1) and top[2][0] == "mcall" and top[2][2] == "bit_length"
+                r1.require(top is not None and (data_top or bitlen_top or (t_term is not None and top == t_term)), enc, "writer level loop reaches the top level",
+                           "CT14._Enc decomposes a posting list over the levels %s: the highest level must be floor(log2 |DB(w)|) (at most t); a list of exactly 2^t postings "
+                           "(one keyword owning the whole database, or a single posting when N = 1) is otherwise never stored" % show(idx, maxdepth=4)[:100], payload)
             # the block is a join over range(c, c + 2**j)
             cnt_ok = any(e == idx for e in pow2_exps(block))
             ok = all(a == idx for a in la) and cnt_ok
@@ -601,10 +679,13 @@ def _check_blocks(repo, r2, s, enc, search, fte, fts, L):
         for c in ast.walk(n.stmt if n.kind != "test" else n.ast):
             if isinstance(c, ast.Call):
                 d = dotted(c.func) or ""
-                if d.endswith("parse_identifiers_from_block_given_identifier_size") and len(c.args) >= 2:
-                    readers.append(("size", L.value(fts.term(c.args[1], n.id)), c))
-                elif d.endswith("parse_identifiers_from_block_given_entry_count_in_one_block") and len(c.args) >= 2:
-                    readers.append(("count", fts.term(c.args[1], n.id), c))
+                if d.endswith("parse_identifiers_from_block_given_identifier_size") or d.endswith("parse_identifiers_from_block_given_entry_count_in_one_block"):
+                    tt = fts.term(c, n.id)   # canonical (positional) argument form
+                    if tt[0] == "call" and len(tt[2]) >= 2:
+                        if d.endswith("identifier_size"):
+                            readers.append(("size", L.value(tt[2][1]), c))
+                        else:
+                            readers.append(("count", tt[2][1], c))
     if s.name in ("CJJ14.PiPack", "CJJ14.PiPtr"):
         r2.require(bool(writers) and bool(readers), search, "block writers and parsers", "%s: partition/parse pair vanished" % s.name)
         # writer geometry per container
@@ -629,7 +710,8 @@ def _check_blocks(repo, r2, s, enc, search, fte, fts, L):
                             geom.setdefault(attr, []).append((cnt, size, L.value(bs) if bs is not None else cnt * size))
         for kind, val, c in readers:
             nid = fts.cfg.node_of_expr(c)
-            at = fts.term(c.args[0], nid[0]) if nid else None
+            ct = fts.term(c, nid[0]) if nid else None
+            at = ct[2][0] if ct is not None and ct[0] == "call" and ct[2] else None
             attr = None
             if at is not None:
                 for x in walk(at):
@@ -859,8 +941,10 @@ def _check_capacity(repo, r4, schemes):
                 if n.stmt is None or n.ast is None:
                     continue
                 for c in ast.walk(n.stmt if n.kind != "test" else n.ast):
-                    if isinstance(c, ast.Call) and (dotted(c.func) or "").endswith("int_to_bytes") and len(c.args) == 2:
-                        widths.append((ft.term(c.args[1], n.id), c))
+                    if isinstance(c, ast.Call) and (dotted(c.func) or "").endswith("int_to_bytes"):
+                        ct = ft.term(c, n.id)
+                        if ct[0] == "call" and len(ct[2]) == 2:
+                            widths.append((ct[2][1], c))
             r4.require(bool(widths), enc, "encoded list size", "ANSS16: the list size is no longer encoded with a fixed width")
             want = ("call", "math.ceil", (("binop", "Div", ("binop", "Add", t_term, ("const", 1)), ("const", 8)),), ())
             for w, c in widths:
